@@ -33,6 +33,7 @@ import (
 	"runtime/debug"
 	"strings"
 	"sync"
+	"sync/atomic"
 	"time"
 
 	"github.com/conduitio/conduit-commons/opencdc"
@@ -82,6 +83,33 @@ type V1Case struct {
 	Msgs    []V1Msg   `json:"msgs,omitempty"`
 	Replies []V1Reply `json:"replies,omitempty"`
 	Calls   []V1Call  `json:"calls,omitempty"`
+	// v1-acker: the feeding schedule. The messages reach the node in groups of
+	// these sizes; the next group is handed over only after the node has dealt
+	// with the previous one and its queue has run empty (so a message can arrive
+	// after the Ack reply that covers it). Empty: all messages first.
+	Feed []int `json:"feed,omitempty"`
+}
+
+// v1Phases cuts the message indices 0..n-1 into the groups of the schedule
+// (sizes beyond n are cut, what the sizes do not cover forms a last group).
+func v1Phases(c V1Case) [][2]int {
+	n := len(c.Msgs)
+	var out [][2]int
+	at := 0
+	for _, k := range c.Feed {
+		if at >= n {
+			break
+		}
+		if at+k > n {
+			k = n - at
+		}
+		out = append(out, [2]int{at, at + k})
+		at += k
+	}
+	if at < n {
+		out = append(out, [2]int{at, n})
+	}
+	return out
 }
 
 type V1Fwd struct {
@@ -159,6 +187,14 @@ func V1CaseFromJSON(m map[string]any) V1Case {
 			}
 		}
 	case "v1-acker":
+		if len(c.Feed) > 16 {
+			panic("ill-formed case: feed too long")
+		}
+		for _, k := range c.Feed {
+			if k < 1 || k > 16 {
+				panic("ill-formed case: feed group size")
+			}
+		}
 		for _, m := range c.Msgs {
 			v1CheckNats(m.Pos)
 			switch m.Nack {
@@ -340,7 +376,11 @@ func V1CoqCase(c V1Case, o V1Obs) string {
 		default:
 			t = "ATHang"
 		}
-		return fmt.Sprintf("CAcker %s %s %s %s %s", hx.Bool(TreeFix.V1Acker), hx.List(ms), hx.List(rs), v1Status(o.Status), t)
+		var phs []string
+		for _, ph := range v1Phases(c) {
+			phs = append(phs, hx.List(ms[ph[0]:ph[1]]))
+		}
+		return fmt.Sprintf("CAcker %s %s %s %s %s", hx.Bool(TreeFix.V1Acker), hx.List(phs), hx.List(rs), v1Status(o.Status), t)
 	case "sandbox":
 		cs := make([]string, len(c.Calls))
 		for i, s := range c.Calls {
@@ -608,11 +648,45 @@ feed:
 
 // ---------- (b) DestinationAckerNode ----------
 
+// v1Gate holds back the destination's replies and the messages' handlers while
+// the harness hands a group of messages to the node.
+type v1Gate struct {
+	mu   sync.Mutex
+	ch   chan struct{}
+	open bool
+}
+
+func newV1Gate() *v1Gate { return &v1Gate{ch: make(chan struct{})} }
+
+func (g *v1Gate) Open() {
+	g.mu.Lock()
+	if !g.open {
+		close(g.ch)
+		g.open = true
+	}
+	g.mu.Unlock()
+}
+
+func (g *v1Gate) Shut() {
+	g.mu.Lock()
+	if g.open {
+		g.ch = make(chan struct{})
+		g.open = false
+	}
+	g.mu.Unlock()
+}
+
+func (g *v1Gate) C() <-chan struct{} {
+	g.mu.Lock()
+	defer g.mu.Unlock()
+	return g.ch
+}
+
 type v1Dest struct {
 	mu        sync.Mutex
 	replies   []V1Reply
 	calls     int
-	gate      chan struct{}
+	gate      *v1Gate
 	exhausted chan struct{}
 	once      sync.Once
 }
@@ -626,7 +700,7 @@ func (d *v1Dest) Errors() <-chan error                          { return nil }
 
 func (d *v1Dest) Ack(ctx context.Context) ([]connector.DestinationAck, error) {
 	select {
-	case <-d.gate:
+	case <-d.gate.C():
 	case <-ctx.Done():
 		return nil, ctx.Err()
 	}
@@ -661,41 +735,33 @@ func runV1Acker(c V1Case) V1Obs {
 	ctx, cancel := context.WithCancel(context.Background())
 	defer cancel()
 
-	gate := make(chan struct{})
+	gate := newV1Gate()
 	dest := &v1Dest{replies: c.Replies, gate: gate, exhausted: make(chan struct{})}
 
-	var (
-		mu       sync.Mutex
-		resolved int
-	)
-	allResolved := make(chan struct{})
-	resolve := func() {
-		mu.Lock()
-		resolved++
-		if resolved == len(c.Msgs) {
-			close(allResolved)
-		}
-		mu.Unlock()
-	}
-	if len(c.Msgs) == 0 {
-		close(allResolved)
-	}
+	resolvedCh := make(chan struct{}, 2*len(c.Msgs)+1)
+	var handlerFailed atomic.Bool
 
 	msgs := make([]*stream.Message, len(c.Msgs))
 	for i, m := range c.Msgs {
 		m := m
 		msg := &stream.Message{Ctx: ctx, Record: v1Record(V1Msg{Pos: m.Pos, ID: []int{i}}), SourceID: "src"}
 		msg.RegisterAckHandler(func(*stream.Message) error {
-			<-gate
-			resolve()
+			<-gate.C()
+			if m.AckErr {
+				handlerFailed.Store(true)
+			}
+			resolvedCh <- struct{}{}
 			if m.AckErr {
 				return errors.New("ack handler failed")
 			}
 			return nil
 		})
 		msg.RegisterNackHandler(func(*stream.Message, stream.NackMetadata) error {
-			<-gate
-			resolve()
+			<-gate.C()
+			if m.Nack == "err" {
+				handlerFailed.Store(true)
+			}
+			resolvedCh <- struct{}{}
 			if m.Nack == "err" {
 				return errors.New("nack handler failed")
 			}
@@ -721,34 +787,59 @@ func runV1Acker(c V1Case) V1Obs {
 
 	deadline := time.After(V1Deadline)
 	hang := false
+	ended := false // Run returned, or it was cancelled because the destination went silent
+	resolved := 0
+	phases := v1Phases(c)
 feed:
-	for _, m := range msgs {
-		select {
-		case in <- m:
-		case <-runDone:
+	for pi, ph := range phases {
+		// hand the group over with the replies and the handlers held back: Run pushes a
+		// received message into its queue before it receives again
+		gate.Shut()
+		for i := ph[0]; i < ph[1]; i++ {
+			select {
+			case in <- msgs[i]:
+			case <-runDone:
+				ended = true
+				break feed
+			case <-deadline:
+				hang = true
+				break feed
+			}
+		}
+		time.Sleep(2 * time.Millisecond)
+		gate.Open()
+		// the node now has everything it needs to deal with this group
+		for resolved < ph[1] {
+			select {
+			case <-resolvedCh:
+				resolved++
+			case <-runDone:
+				ended = true
+				break feed
+			case <-dest.exhausted:
+				// the destination has nothing more to say and the worker waits for it:
+				// stop the pipeline
+				cancel()
+				ended = true
+				break feed
+			case <-deadline:
+				hang = true
+				break feed
+			}
+		}
+		if handlerFailed.Load() {
+			// a failed handler ends Run; do not race the next group against that
+			ended = true
 			break feed
-		case <-deadline:
-			hang = true
-			break feed
+		}
+		if pi+1 < len(phases) {
+			// let the queue run empty: the worker goes back to waiting for a signal
+			time.Sleep(2 * time.Millisecond)
 		}
 	}
-	// every message is in the node (Run pushes a received message into its queue
-	// before it receives again); now let the replies flow
-	time.Sleep(2 * time.Millisecond)
-	close(gate)
-
-	if !hang {
-		select {
-		case <-runDone:
-		case <-dest.exhausted:
-			// the destination has nothing more to say and the worker waits for it:
-			// stop the pipeline
-			cancel()
-		case <-allResolved:
-			close(in)
-		case <-deadline:
-			hang = true
-		}
+	gate.Open() // every gate is released from here on
+	if !hang && !ended {
+		close(in)
 	}
 	if !hang {
 		select {
@@ -1303,7 +1394,76 @@ func v1GenAcker(r *hx.Rand) V1Case {
 	if errAt >= 0 {
 		ins(errAt, V1Reply{Err: true})
 	}
+	// the feeding schedule: two of three cases hand the messages over in groups,
+	// so that a batched reply covers messages that have not reached the node yet
+	if r.Chance(2, 3) {
+		for left := n; left > 0; {
+			k := r.Range(1, 2)
+			if k > left {
+				k = left
+			}
+			c.Feed = append(c.Feed, k)
+			left -= k
+		}
+	}
 	return c
+}
+
+// v1ExhaustiveAcker enumerates, for n <= maxN messages: every feeding schedule
+// (all compositions of n), every way to cut the ack stream into Ack() replies
+// (all compositions of its length: replies of 1..len acks) and the streams
+// exact / one surplus ack / a wrong position, a duplicate, a negative ack at
+// every index / the last ack missing; once more with the first message filtered.
+func v1ExhaustiveAcker(maxN int, emit func(V1Case)) {
+	for n := 1; n <= maxN; n++ {
+		for _, filt := range []bool{false, true} {
+			var base []V1Ack
+			for i := 0; i < n; i++ {
+				if !(filt && i == 0) {
+					base = append(base, V1Ack{Pos: Pos{i + 1}})
+				}
+			}
+			cp := func() []V1Ack {
+				out := make([]V1Ack, len(base))
+				for i, a := range base {
+					out[i] = V1Ack{Pos: append(Pos{}, a.Pos...)}
+				}
+				return out
+			}
+			streams := [][]V1Ack{cp(), append(cp(), V1Ack{Pos: Pos{99}})}
+			if len(base) > 0 {
+				streams = append(streams, cp()[:len(base)-1])
+			}
+			for i := range base {
+				w := cp()
+				w[i].Pos = Pos{77}
+				d := cp()
+				d = append(d[:i+1:i+1], d[i:]...)
+				e := cp()
+				e[i].Err = true
+				streams = append(streams, w, d, e)
+			}
+			for _, feed := range compositions(n) {
+				for _, st := range streams {
+					for _, cut := range compositions(len(st)) {
+						c := V1Case{Engine: "v1-acker"}
+						for i := 0; i < n; i++ {
+							c.Msgs = append(c.Msgs, V1Msg{Pos: Pos{i + 1}, Nack: "ok", Filtered: filt && i == 0})
+						}
+						if len(feed) > 1 {
+							c.Feed = append([]int{}, feed...)
+						}
+						at := 0
+						for _, k := range cut {
+							c.Replies = append(c.Replies, V1Reply{Acks: append([]V1Ack{}, st[at:at+k]...)})
+							at += k
+						}
+						emit(c)
+					}
+				}
+			}
+		}
+	}
 }
 
 func v1GenSandbox(r *hx.Rand) V1Case {
@@ -1380,6 +1540,16 @@ func V1Main(o hx.Opts) {
 		if i == 0 {
 			v1ExhaustiveProc(func(c V1Case) { cs = append(cs, c) })
 		}
+		maxN, ek := 3, 0
+		if o.Tier == "thorough" {
+			maxN = 4
+		}
+		v1ExhaustiveAcker(maxN, func(c V1Case) {
+			if ek%n == i {
+				cs = append(cs, c)
+			}
+			ek++
+		})
 		root := hx.NewRand(o.Seed)
 		for k := 0; k < nProc; k++ {
 			cs = append(cs, v1GenProc(root.Fork(1<<40|uint64(i)<<24|uint64(k))))
